@@ -124,6 +124,20 @@ func init() {
 		obj.FillRandom(basictl.NewRandGenerator(&srand{s: seed}))
 		return "ok " + hx(obj.WriteTL2(nil, nil))
 	})
+	// rand12 <name> <seed>: FillRandom with a scripted source, written boxed in TL1
+	ops["rand12"] = small(func(f []string) string {
+		obj := newTL2(f[1])
+		if obj == nil {
+			return "driver-error no object " + f[1]
+		}
+		seed, _ := strconv.ParseUint(f[2], 10, 64)
+		obj.FillRandom(basictl.NewRandGenerator(&srand{s: seed}))
+		w, err := obj.WriteTL1BoxedGeneral(nil)
+		if err != nil {
+			return "writeerr"
+		}
+		return "ok " + hx(w)
+	})
 	// fill2 <name> <seed>: FillRandom only (tells a FillRandom crash, left to C18, from a WriteTL2 crash)
 	ops["fill2"] = small(func(f []string) string {
 		obj := newTL2(f[1])
